@@ -1,5 +1,7 @@
 package simrt
 
+import "reflect"
+
 // Generic channel helpers that simgen substitutes for receive expressions and send statements
 // outside select, so that a goroutine woken natively parks before it touches anything.
 
@@ -31,3 +33,11 @@ func Send[C SendChan[T], T any](c C, v T) {
 
 // ElemOf converts v to the channel's element type (declares a select send temporary).
 func ElemOf[C SendChan[T], T any](c C, v T) T { return v }
+
+// IsChan reports whether the operand of a range statement is a channel (simgen guards such loops with Woke).
+func IsChan(x interface{}) bool {
+	if x == nil {
+		return false
+	}
+	return reflect.TypeOf(x).Kind() == reflect.Chan
+}
